@@ -1,0 +1,11 @@
+//go:build verif
+
+package security
+
+// Read-only exports for the verification harness (build tag "verif" only).
+
+// VerifMul is the GF(2^64) multiplication used by NIA1.
+func VerifMul(V, P, c uint64) uint64 { return mul(V, P, c) }
+
+// VerifGetWord is the 32-bit window extraction used by NIA3.
+func VerifGetWord(stream []uint32, i int) uint32 { return getWord(stream, i) }
